@@ -140,6 +140,7 @@ def spec_chrom(case, chrom):
     si = sample_index(case)
     variants = het = het_snvs = unphased = 0
     sets = {}          # id -> list of (pos0, is_snv)
+    runs = []          # maximal runs of consecutive phased heterozygous calls of one phase set: [first pos1, last pos1, id]
     prev = None
     for r in case["records"]:
         if r["chrom"] != chrom or len(r["alts"]) != 1:
@@ -169,6 +170,10 @@ def spec_chrom(case, chrom):
             unphased += 1
             continue
         sets.setdefault(sid, []).append((pos, is_snv))
+        if runs and runs[-1][2] == sid:
+            runs[-1][1] = pos + 1
+        else:
+            runs.append([pos + 1, pos + 1, sid])
     big = {k: v for k, v in sets.items() if len(v) > 1}
     intervals = sorted((min(p for p, _ in v), max(p for p, _ in v)) for v in big.values())
     union, cur = 0, None
@@ -185,7 +190,7 @@ def spec_chrom(case, chrom):
             "phased": sum(len(v) for v in big.values()), "singletons": sum(1 for v in sets.values() if len(v) == 1),
             "blocks": len(big), "phased_snvs": sum(s for v in big.values() for _, s in v),
             "block_list": sorted((k, min(p for p, _ in v) + 1, max(p for p, _ in v) + 1, len(v)) for k, v in sets.items()),
-            "union_span": union}
+            "union_span": union, "gtf": runs}
 
 
 def parse_tsv(path):
@@ -464,6 +469,8 @@ def judge(ctx, case, res):
         bl = sorted(bl_c, key=lambda t: (t[0] is None, t[0] or 0))
         if bl != sorted(s["block_list"] * copies) and not degenerate(c):
             fail(f"{c}: block list {bl[:6]} != phase sets of the file {s['block_list'][:6]}", "block-list")
+        if [list(x) for x in res["gtf"].get(c, [])] != s["gtf"] * copies and not degenerate(c):
+            fail(f"{c}: GTF features {res['gtf'].get(c, [])[:6]} != maximal runs of the file's phased calls {s['gtf'][:6]}", "gtf-rows")
         if sum(n for _, _, _, n in bl_c if n > 1) != v["phased"] * copies:
             fail(f"{c}: block-list sizes > 1 do not sum to phased", "block-list-sum")
         naive = sum(b - a for _, a, b, n in bl_c if n > 1) // copies
